@@ -2,6 +2,7 @@ import Falcon.Props.C06
 import Falcon.Lemmas.KeyCodecSk
 import Falcon.Lemmas.RecomputeG
 import Falcon.Lemmas.SignRefine
+import Falcon.Lemmas.KeygenSound
 
 /-!
 # C05 — sizes and exact round trip (format side) and the key-generation guards
@@ -151,6 +152,30 @@ theorem model_signatures_have_fixed_size_and_decode (chk : Bool) (N L : Nat)
     sig.length = 41 + L ∧ ∃ salt body, sigFromBytes N sig = .ok (.ok (salt, body)) ∧ sig = sigToBytes salt body := by
   obtain ⟨body, h1, h2, h3⟩ := SignFlt.sign_wellformed chk N L hNL b0 msg stream sig a b zs h
   exact ⟨h2, _, body, h3, h1⟩
+
+/-- **every key the executable model of `ntru_gen` returns** (`Keygen.ntruGen`: the model whose keys equal the real
+    ones on every compared seed) **is representable in the fixed-width secret-key format and survives the round
+    trip**: it went through the range guards, so f, g, F serialise without overflow to 1281 / 2305 bytes and decode to
+    the same residues — for every seed for which the model returns a key (lengths as the model produces them) -/
+theorem model_generated_keys_are_representable (chk : Bool) (N : Nat) (hN : N = 512 ∨ N = 1024) (seed : List Nat)
+    (f g cF cG : List Int) (k : Nat) (h : Keygen.ntruGen chk N seed = .ok (.key f g cF cG k))
+    (lf : f.length = N) (lg : g.length = N) (lF : cF.length = N) :
+    ∃ b, skToBytes chk f g cF = .ok b ∧ b.length = (if N = 512 then 1281 else 2305) ∧
+      skFromBytes N b = .ok (.ok (f.map Zq.new, g.map Zq.new, cF.map Zq.new)) := by
+  obtain ⟨hfg, _, _, _, hFG⟩ := Keygen.ntruGen_accepted chk N seed f g cF cG k h
+  apply secret_key_roundtrip chk N hN f g cF cG lf lg lF
+  apply accepted_is_in_range N hN
+  · rintro ⟨c, hc, hge⟩
+    have := hfg c hc
+    have hl : Keygen.fgLimit N = (2 : Int) ^ ((if N = 1024 then 5 else 6) - 1) := by
+      rcases hN with rfl | rfl <;> decide
+    rw [hl] at this
+    have : (c.natAbs : Int) ≥ (2 : Int) ^ ((if N = 1024 then 5 else 6) - 1) := by exact_mod_cast hge
+    omega
+  · rintro ⟨c, hc, hgt⟩
+    have := hFG c hc
+    have h127 : Gen.capGuardLimit = 127 := rfl
+    omega
 
 /-! ### non-vacuity -/
 example : deserializeField (intBits 6 (-31)) = some 12258 ∧ deserializeField (intBits 8 127) = some 127 := by decide
